@@ -130,8 +130,11 @@ func (d *uripostDecoder) readBlock(reader *bufio.Reader, commonHeader http.Heade
 
 	header := commonHeader.Clone()
 	for k, vv := range d.decodedConfigHeaders {
+		if _, ok := header[k]; ok {
+			continue // headers in ammo file have priority
+		}
 		for _, v := range vv {
-			header.Set(k, v)
+			header.Add(k, v)
 		}
 	}
 	a := d.pool.Get().(*ammo.Ammo)
